@@ -25,6 +25,7 @@ RULE = ('Hypothesis generates fit output files: 1..4 records with 0..8 fits each
         'them). Non-trivial = file with >= 2 records (so that a cut can fall between and inside records); distinct = '
         'distinct canonical JSON of the file description.')
 RULE += (' ' + 'Also varied: one Source object re-used for all records (given new photometry before each write), records of 4500 / 9000 fits.')
+RULE += (' ' + 'At every fifth offset the open file is gone over a second time after the first-pass records were reduced with keep().')
 ASSUMPTIONS = [
     'a reader that raises any exception on a truncated file satisfies the property; returning fewer records is allowed',
     'truncation is the only fault (bytes before the cut are intact), as after a crash or a full disk',
@@ -117,6 +118,7 @@ def run_case(case, ctx):
         # cut progressively shorter: one copy of the file, truncated in place from the end towards the start
         with open(cut, 'wb') as f:
             f.write(data)
+        nsecond = 0
         for t in sorted(offsets, reverse=True):
             os.truncate(cut, t)
             complete = len(infos) if bounds is None else sum(1 for b in bounds if b <= t)
@@ -140,6 +142,30 @@ def run_case(case, ctx):
                 if diff:
                     fail('file of %d bytes cut at %d: record %d differs from the written one in %s' % (
                         len(data), t, i, diff), 'c19:wrong_record')
+            if t % 5 == 0 and recs:
+                # the same open file gone over a second time, after the records of the first pass were reduced by their
+                # consumer (every post-processing function calls keep() on what it is handed): the second pass still tells
+                # what was written - or nothing
+                from sedfitter.fit_info import FitInfoFile
+                try:
+                    with quiet():
+                        fin = FitInfoFile(cut, 'r')
+                        try:
+                            for g in fin:
+                                g.keep(('N', 1))
+                            again = [g for g in fin]
+                        finally:
+                            fin.close()
+                except Exception:  # noqa
+                    again = []
+                for i, g in enumerate(again):
+                    diff = 'more records than were written' if i >= complete else fg.diff_snapshots(fg.snapshot(g), snaps[i])
+                    if diff:
+                        fail('file of %d bytes cut at %d, gone over a second time through the same FitInfoFile after the records of '
+                             'the first pass were reduced with keep(): record %d differs from the written one in %s' % (
+                                 len(data), t, i, diff), 'c19:wrong_record')
+                nsecond += 1
+        ctx.labels['offsets_second_pass'] += nsecond
         ctx.labels['offsets_evaluated'] += len(offsets)
         ctx.labels['offsets_raise'] += nraise
         ctx.labels['offsets_prefix'] += nprefix
